@@ -111,6 +111,10 @@ class ExecutionContext:
                         case LinearIR.VariableAccessScope.FUNCTION_LOCAL:
                             localScope[ref] = localScope[instruction.Variable]
                 case LinearIR.OpCode.STORE:
+                    # The value of an assignment is the value that was stored
+                    localScope[instruction.Reference] = localScope[
+                        instruction.Store.Reference
+                    ]
                     match instruction.Scope:
                         case LinearIR.VariableAccessScope.GLOBAL:
                             self.__globalScope[instruction.Variable] = (
